@@ -79,10 +79,19 @@ def build_harness(race=False, name="vharness"):
         cmd.insert(2, "-race")
         env["CGO_ENABLED"] = "1"
     cmd.append("./cmd/" + name)
+    # build under a private name and rename: two checks running at the same time never see a half-written binary
+    final = out
+    tmp = "%s.tmp.%d" % (out, os.getpid())
+    cmd[cmd.index("-o") + 1] = tmp
     rc, o, dt = sh(cmd, cwd=HARNESS, env=env, timeout=900)
     if rc != 0:
+        try:
+            os.remove(tmp)
+        except OSError:
+            pass
         raise Fatal("harness build failed against %s:\n%s" % (REPO, o[-4000:]))
-    return out
+    os.replace(tmp, final)
+    return final
 
 
 class TLCResult:
